@@ -51,7 +51,8 @@ class C08(ProgramProperty):
             ctx.count('layout_' + f)
         # the variant is parsed through the start-offset entry point half of the time: layout handling (BOM, line joins,
         # indentation) must not depend on where the text is said to start
-        return {'base': base, 'variant': r.text, 'mode': mode, 'feats': sorted(r.feats), 'k': cs.pick([0, 0, 0, 1, 7, 400, 1 << 31])}
+        return {'base': base, 'variant': r.text, 'mode': mode, 'feats': sorted(r.feats), 'k': cs.pick([0, 0, 0, 1, 7, 400, 1 << 31]),
+                'py312': bool(g.py312 and ('type_params' in g.features or 'type_alias' in g.features))}
 
     def nontrivial(self, case, ctx):
         return case['base'] != case['variant'] and bool(re.search(r':\s*\n|[\[({]', case['base']))
@@ -87,11 +88,12 @@ class C08(ProgramProperty):
 
     def known(self, case, f, ctx):
         if 'C08-F1' in open_ids('C08') and f.signature == 'acceptance_differs':
-            from .c01 import top_level_colon
+            # the region of C01-F2, decided on the reference tree of the rejected text: a statement that is *not* a match
+            # statement starts with the word match / case and a ':' outside brackets follows on its line
+            from .c01 import C01
             rejected = case['base'] if f.detail.get('base') != 'ok' else case['variant']
-            for m in re.finditer(r'(?:^|[\r\n])[ \t\x0c]*(match|case)\b', rejected.lstrip('\ufeff')):
-                if top_level_colon(rejected.lstrip('\ufeff')[m.start(1):]):
-                    return 'C08-F1'
+            if C01.soft_kw_name_line_with_colon(self, {'text': rejected, 'mode': case['mode'], 'py312': case.get('py312', False)}, ctx):
+                return 'C08-F1'
         return None
 
 
